@@ -28,6 +28,10 @@ inductive HashAlg | sha256 | sha384 | sha512
 def HashAlg.name : HashAlg → String
   | .sha256 => "sha256" | .sha384 => "sha384" | .sha512 => "sha512"
 
+/-- digest length in bytes (`hash.Size()`) -/
+def HashAlg.size : HashAlg → Nat
+  | .sha256 => 32 | .sha384 => 48 | .sha512 => 64
+
 /-- authorization parameters a request object (oidc.RequestObject) may carry besides iss / aud -/
 structure ROParams where
   ResponseType : String := ""
@@ -202,9 +206,18 @@ end Go
 
 namespace Hand
 
-/-- `crypto.HashString(hash, s, firstHalf)`: symbolic digest (injective by construction). -/
-def HashString (_now : Int) (h : HashAlg) (s : String) (firstHalf : Bool) : String :=
-  "H(" ++ h.name ++ (if firstHalf then "/2," else ",") ++ s ++ ")"
+/-- base64url of the first `n` bytes of the digest of `s` under `h`: a symbolic term, injective in
+    (`h`, `n`, `s`) by construction.  The whole digest and its left half keep the spelling the harness uses on
+    the wire (`H(sha256,s)`, `H(sha256/2,s)`); any other prefix length is spelled out. -/
+def digestPrefix (h : HashAlg) (n : Nat) (s : String) : String :=
+  if n == h.size then "H(" ++ h.name ++ "," ++ s ++ ")"
+  else if n * 2 == h.size then "H(" ++ h.name ++ "/2," ++ s ++ ")"
+  else "H(" ++ h.name ++ ":" ++ toString n ++ "," ++ s ++ ")"
+
+/-- the left-half hash of OIDC Core 3.1.3.6 (at_hash, c_hash) as the SPECIFICATION defines it: the first
+    `size / 2` bytes of the digest.  `crypto.HashString` itself is regenerated from the source
+    (`Gen.HashString`, Generated/HashFacts.lean). -/
+def leftHalfHash (h : HashAlg) (s : String) : String := digestPrefix h (h.size / 2) s
 
 /-- `oidc.ParseToken`: exactly three segments, decodable middle, JSON-decodable payload. -/
 def ParseToken (_now : Int) (t : Token) : Go.R (Payload × Claims) :=
